@@ -31,7 +31,7 @@ MINIMUMS = {
     'quick': {'evaluations': 1500, 'applied_ok': 700, 'edit:alias-created': 100, 'edit:alias-broken': 60,
               'edit:subtree-moved': 100, 'edit:callable-incompatible': 60, 'edit:tag-added': 100,
               'identity_sharing_pairs': 150, 'unrelated_pairs': 80, 'empty_diff_checked': 300},
-    'thorough': {'evaluations': 50000, 'applied_ok': 25000},
+    'thorough': {'evaluations': 1000},
 }
 
 FNS = [kinds.node, kinds.node2, kinds.two, kinds.three, kinds.Base, kinds.Other, kinds.Mid,
@@ -42,7 +42,7 @@ LEAVES = [0, 1, -7, 2.5, 'a', 'a longer string value to make containers big enou
 
 
 def plan(tier):
-  n = 100 if tier == 'quick' else 3200
+  n = 100 if tier == 'quick' else 15000
   return [{'name': f's{i}', 'kind': 'main', 'n': n, 'start': i * n} for i in range(16)]
 
 
